@@ -298,6 +298,11 @@ class SSync(object):
         return "<SSync %s %r>" % (self.kind, self.st)
 
 
+def _extra_pos(st):
+    from .values import int_term
+    return int_term(st["extra"]) > 0
+
+
 def sync_method(ctx, obj, name, args, kwargs):
     from .engine import Blocked
     k, st = obj.kind, obj.st
@@ -308,15 +313,27 @@ def sync_method(ctx, obj, name, args, kwargs):
         if name in ("get", "get_nowait"):
             if st["items"]:
                 return st["items"].pop(0)
+            if st.get("extra") is not None:
+                # further, unknown items behind the known head of the queue: their contents are not
+                # modelled, so a path that consumes one is outside this contract's shape
+                if ctx.branch(_extra_pos(st)):
+                    from .engine import Unsupported
+                    raise Unsupported("Queue.get() reaches the unmodelled tail of the queue")
             if name == "get_nowait" or (args and args[0] is False) or kwargs.get("block") is False \
                     or kwargs.get("timeout") is not None or len(args) > 1:
                 import queue
                 ctx.py_raise(queue.Empty)
             raise Blocked("Queue.get() on an empty queue")
         if name == "empty":
-            return len(st["items"]) == 0
+            if st["items"] or st.get("extra") is None:
+                return len(st["items"]) == 0
+            from .values import SBool
+            return SBool(z3.Not(_extra_pos(st)))
         if name == "qsize":
-            return len(st["items"])
+            if st.get("extra") is None:
+                return len(st["items"])
+            from .values import SInt, int_term
+            return SInt(len(st["items"]) + int_term(st["extra"]))
         if name == "task_done":
             return None
     if k == "lock":
